@@ -4,6 +4,7 @@ CONSTANTS
   Pinned = FALSE
   DupShares = FALSE
   MaxOps = 6
-  MaxCells = 9
+  MaxCells = 12
 INVARIANTS NoCycle Unshared
 CHECK_DEADLOCK FALSE
+PROPERTY MutatesOnlySlots
